@@ -212,6 +212,11 @@ func (w *vfWorld) art(ref string) *vfArtefact {
 	switch ref {
 	case "":
 		return nil
+	case "newest":
+		if n := len(w.model.arts); n > 0 {
+			return w.model.arts[n-1]
+		}
+		return nil
 	}
 	if n, err := strconv.Atoi(ref); err == nil {
 		if n >= 1 && n <= len(w.model.arts) {
